@@ -1,7 +1,8 @@
 ------------------------------ MODULE RetryTrace ------------------------------
 (* Trace spec (monitor) for C10.  Events recorded from the real Crazyflie.send_packet /
    _check_for_answers / close_link / Timer threads against the simulated link:
-     send [req, sess, pat, tmo]      the application calls send_packet(expected_reply) (before the call)
+     send [req, sess, pat, tmo, after]  the application calls send_packet(expected_reply) (before the call);
+                                     after = id (last byte) of the incoming packet whose handler issues it, 0 = none
      tx   [req, sess, t, strict]     the link saw a transmission of request req (sess 0 = on a closed
                                      or superseded link object)
      ansb [sess, data, t]            the library starts checking an incoming packet for answers
@@ -30,7 +31,7 @@ Fail(c) == IF bad = "ok" /\ c # "ok" THEN bad' = c /\ badAt' = l ELSE UNCHANGED 
 
 ESend == /\ Ev.e = "send"
          \* reqs: n = position of the call; reqsTx: n = position of the first transmission (set at tx)
-         /\ reqs' = Append(reqs, [n |-> l, sess |-> Ev.sess, pat |-> Ev.pat, tmo |-> Ev.tmo, t |-> 0])
+         /\ reqs' = Append(reqs, [n |-> l, sess |-> Ev.sess, pat |-> Ev.pat, tmo |-> Ev.tmo, t |-> 0, after |-> Ev.after])
          /\ reqsTx' = Append(reqsTx, [n |-> 0, sess |-> Ev.sess, pat |-> Ev.pat, tmo |-> Ev.tmo, t |-> 0])
          /\ UNCHANGED <<wire, ans, bad, badAt>>
 
